@@ -17,6 +17,7 @@ RunSeq(prog, st, img, memSize, fuel) ==
   ELSE RunSeq(prog, Step(prog, st, img, memSize), img, memSize, fuel - 1)
 
 Final(prog, regs0, img, memSize, fuel) == RunSeq(prog, InitState(regs0), img, memSize, fuel)
+FinalM(prog, regs0, mem0, img, memSize, fuel) == RunSeq(prog, InitStateM(regs0, mem0), img, memSize, fuel)
 
 (* a run the properties quantify over: terminates by ret or by running off the end *)
 WellFormed(fin) == fin.status \in {"ret", "end"}
@@ -42,7 +43,7 @@ EndsWithRet(fin) == fin.status = "ret"
 Path(fin) == [k \in 1 .. Len(fin.ev) |-> fin.ev[k].i]
 
 CaseRec(fam, prog, regs0, img, memSize, fin, focusRegs, focusAddrs, tags, extra) ==
-  [ fam |-> fam, prog |-> prog, regs0 |-> IntRegs(regs0), img |-> img, memSize |-> memSize,
+  [ mem0 |-> <<>>, fam |-> fam, prog |-> prog, regs0 |-> IntRegs(regs0), img |-> img, memSize |-> memSize,
     exp |-> [ status |-> fin.status, regs |-> IntRegs(fin.regs), mem |-> fin.mem, n |-> fin.n,
               cyc1 |-> fin.cyc1, cyc2 |-> fin.cyc2,
               \* MVP-3 writes every resident data line back when the run ends
